@@ -24,23 +24,22 @@ def dupName : List (Bytes × Nat) → Bool
   | [] => false
   | (n, _) :: rest => rest.any (·.1 = n) || dupName rest
 
+/- K11e (class `undeclared`): some route carries a constraint on a name its pattern does not declare
+(`normal R` fails): the tree then never matches that route, the compiled matcher ignores the constraint. -/
+
 /-- K11d: a route whose pattern matches carries two constraints on one parameter (the compiled
 matcher keeps the first constraint per parameter, the tree checks all of them) -/
 def dMulti1 (R : List Route) (m : Bytes) (p : RPath) : Bool :=
   R.any fun r => r.method = m && compiledDyn r && (matchPat p.trail r.pat p.segs).isSome && dupName r.cons
 
-/-- K11e: a route whose pattern matches carries a constraint on a name its pattern does not declare
-(the tree then never matches the route, the compiled matcher ignores the constraint) -/
-def dUndeclared1 (R : List Route) (m : Bytes) (p : RPath) : Bool :=
-  R.any fun r => r.method = m && compiledDyn r && (matchPat p.trail r.pat p.segs).isSome &&
-    r.cons.any fun (n, _) => !(declNames r.pat).contains n
-
 def isWhite (c : Char) : Bool := c = ' ' || c = '\t' || c = '\n' || c = '\r' || c.toNat = 11 || c.toNat = 12
 
-/-- K11f: a pattern text of the request method ends in white space (`CompileRoute` trims it, the tree
-registers it as written: pattern text, last parameter name or last literal differ) -/
-def dSpace1 (R : List Route) (m : Bytes) : Bool :=
-  R.any fun r => r.method = m && (match r.text.getLast? with | some c => isWhite c | none => false)
+/-- K11f: some pattern text ends in white space (`CompileRoute` trims it, the tree registers it as
+written: pattern text, last parameter name or last literal differ) -/
+def dSpace (R : List Route) : Bool :=
+  R.any fun r => match r.text.getLast? with
+    | some c => isWhite c
+    | none => false
 
 /-- every pattern is in the vocabulary (constraints unrestricted) -/
 def patternsOK (R : List Route) : Bool := R.all fun r => parsePattern r.text = some r.pat
@@ -49,8 +48,8 @@ def patternsOK (R : List Route) : Bool := R.all fun r => parsePattern r.text = s
 request's own method; the 404/405 tail is shared code. -/
 def classify11 (sat : Nat → Bytes → Bool) (R : List Route) (req : Req) (p : RPath) : String :=
   let m := req.method
-  if dSpace1 R m then "space"
-  else if dUndeclared1 R m p then "undeclared"
+  if dSpace R then "space"
+  else if !normal R then "undeclared"
   else if dMulti1 R m p then "multicons"
   else if dOverwrite1 R m p then "overwrite"
   else if dNames1 R m p then "names"
